@@ -59,6 +59,10 @@ CHECKS = {
         text="Lean proof that for EVERY table the emitted handler of every (state, event) refines the table (guards in table order, first row with absent/true guard performs exit, action, enter, state change and returns; unlisted pairs and all-guards-false are ignored: C10_handler_refines_table, C10_unlisted_pair_ignored), that every callback a handler makes is declared in the context interface and each guard / (action,event) signature / state hook occurs once (C10_context_declares_calls, C10_context_declares_once), and that every state that can be entered - target-only states included - has its class (C10_every_enterable_state_has_class); tied to the code by brace-matched parse-back of <SM>Internals.cs and <SM>Context.cs.",
         ref="DESIGN.md 6/C10", technique="Lean 4 proof (shared refinement theorem with C08) + parse-back correspondence",
         note="No C# compiler in the sandbox: compile-ability is not claimed; C# statement semantics assumed as in the model's interpreter."),
+    "C11": dict(
+        text="Lean proof over an interleaving model of the generated threaded machine (producers, worker, stopper, events triggered from callbacks), for EVERY reachable state of EVERY label sequence: the processed events of each source are a prefix of its trigger order and, with queue and pending ones, exactly the triggered events - exactly once, per-producer FIFO, nothing lost (C11_exactly_once_fifo, C11_fifo_prefix); never two process bodies active (C11_run_to_completion); stop() returned implies queue drained and worker gone, after which no worker step is enabled (C11_stop_postcondition, C11_nothing_after_stop); while stop() waits some step is always enabled (C11_no_deadlock) and every worker step strictly decreases a variant no other thread can increase (C11_worker_step_decreases, C11_other_step_keeps_measure), so stop() returns under fairness; tied to the code by executing the real generated module under a seeded cooperative scheduler and replaying each executed schedule on the model.",
+        ref="DESIGN.md 6/C11", technique="Lean 4 proof (inductive invariants over all interleavings, variant for termination) + controlled-scheduler trace validation",
+        note="Atomicity granularity and CPython's Queue/RLock/join semantics are assumptions validated by the scheduler runs; fairness is assumed for termination; the model is of the template after fix 8102b3d."),
 }
 PENDING = {}
 
